@@ -2,6 +2,7 @@ package sim
 
 import (
 	"fmt"
+	"os"
 	"testing"
 	"time"
 )
@@ -191,5 +192,43 @@ func TestRefLeaveBoundaryConflict(t *testing.T) {
 			}
 		}
 		fmt.Printf("leave boundary n=%d: weak decisions in %d/20, conflicting decisions in %d/20 searches; %.0f ms/search\n", n, weak, found, float64(time.Since(st).Milliseconds())/20)
+	}
+}
+
+// TestDeepSearch (DEEP_SEARCH=seed[,n,iters,want]): offline search for deep elections; prints play lists.
+func TestDeepSearch(t *testing.T) {
+	spec := os.Getenv("DEEP_SEARCH")
+	if spec == "" {
+		t.Skip()
+	}
+	var seed uint64
+	n, iters, want := 4, 200000, 9
+	fmt.Sscanf(spec, "%d,%d,%d,%d", &seed, &n, &iters, &want)
+	r := NewRNG(seed)
+	for k := 0; k < 8; k++ {
+		var plays []synthPlay
+		switch k % 3 {
+		case 0:
+			plays = synthPlays(r, n, 16)
+		case 1:
+			plays = gossipPlays(r, n, 40*n)
+		default:
+			if n == 4 {
+				plays = splitVotePlays(r)
+			} else {
+				plays = synthPlays(r, n, 18)
+			}
+		}
+		st := time.Now()
+		out, res := climbDeep(r, n, plays, iters, 4, want)
+		d, _ := refFromPlays(n, out)
+		fmt.Printf("DEEP seed=%d k=%d n=%d last=%d dist=%d score=%.2f events=%d rounds=%d bits=%d %.1fs\n", seed, k, n, res.last, res.dist, res.score, len(out), len(d.wits), len(res.bits), time.Since(st).Seconds())
+		if res.last >= want {
+			s := ""
+			for _, p := range out {
+				s += fmt.Sprintf("%d,%d;", p.creator, p.other)
+			}
+			fmt.Printf("PLAYS n=%d last=%d %s\n", n, res.last, s)
+		}
 	}
 }
